@@ -108,8 +108,16 @@ class RefLayer:
             hard = False
             if p.get("bit") and t not in ("CODED-CONST", "VALUE"):
                 raise Envelope("bit position")
-            if t in ("CODED-CONST", "PHYS-CONST"):
-                if t == "PHYS-CONST":  # (IDENTICAL compu method: the physical constant is the coded value)
+            if t == "CODED-CONST" and p["dct"].get("k") == "MINMAX":
+                # a constant byte field of variable-length type: only as the LAST parameter (then it ends the PDU and
+                # is encoded without terminator); anything behind its bytes counts as trailing bytes (MAYBE)
+                if p is not self.msgs[msg]["params"][-1] or p["dct"].get("base") != "A_BYTEFIELD" or p.get("bit"):
+                    raise Envelope("MIN-MAX-LENGTH constant")
+                t = "BYTES-CONST"
+            if t in ("CODED-CONST", "PHYS-CONST", "BYTES-CONST"):
+                if t == "BYTES-CONST":
+                    bit, nbits, cval = 0, 8 * len(p["value"]), int.from_bytes(bytes(p["value"]), "big")
+                elif t == "PHYS-CONST":  # (IDENTICAL compu method: the physical constant is the coded value)
                     bit, nbits, cval = 0, 8 * _nbytes(self._simple_dop(p["dop"])), int(p["const"])
                 else:
                     bit, nbits, cval = p.get("bit") or 0, _nbits(p["dct"]), int(p["value"])
@@ -192,7 +200,7 @@ class RefLayer:
         values: Dict[str, Any] = {}
         for st in pl.steps:
             raw = M[st.pos:st.pos + st.n]
-            if st.kind in ("CODED-CONST", "PHYS-CONST"):
+            if st.kind in ("CODED-CONST", "PHYS-CONST", "BYTES-CONST"):
                 vb, mb, bit, nbits = st.arg
                 if bytes(x & m for x, m in zip(raw, mb)) != vb:
                     if st.hard:
@@ -200,7 +208,7 @@ class RefLayer:
                     if st.kind == "PHYS-CONST":  # (checked by the parameter itself; an error in strict mode)
                         return NOMATCH, None, "physconst"
                     soft = soft or "coded constant behind the prefix differs"
-                values[st.name] = (int.from_bytes(raw, "big") >> bit) & ((1 << nbits) - 1)
+                values[st.name] = bytes(raw) if st.kind == "BYTES-CONST" else (int.from_bytes(raw, "big") >> bit) & ((1 << nbits) - 1)
             elif st.kind == "MATCHING-REQUEST-PARAM":
                 if raw[:len(st.arg)] != st.arg:
                     if st.hard:
@@ -290,7 +298,7 @@ class RefLayer:
         pl = self.plan_for(msg, b"")
         out = bytearray(pl.length)
         for st in pl.steps:
-            if st.kind in ("CODED-CONST", "PHYS-CONST"):
+            if st.kind in ("CODED-CONST", "PHYS-CONST", "BYTES-CONST"):
                 for i, x in enumerate(st.arg[0]):
                     out[st.pos + i] |= x
                 continue
@@ -319,7 +327,7 @@ class RefLayer:
         for svc in self.svcs:
             for m in self.own[svc["name"]]:
                 for st in self.plan_for(m, b"").steps:
-                    if st.kind in ("CODED-CONST", "PHYS-CONST"):
+                    if st.kind in ("CODED-CONST", "PHYS-CONST", "BYTES-CONST"):
                         s.update(st.arg[0])
                     elif st.kind == "NRC-CONST":
                         for v in st.arg:
@@ -327,7 +335,7 @@ class RefLayer:
                 s.update(self.plan_for(m, b"").prefix)  # (constants sharing a byte: the assembled byte)
         for m in self.gnrs:
             for st in self.plan_for(m, b"").steps:
-                if st.kind in ("CODED-CONST", "PHYS-CONST"):
+                if st.kind in ("CODED-CONST", "PHYS-CONST", "BYTES-CONST"):
                     s.update(st.arg[0])
                 elif st.kind == "NRC-CONST":
                     for v in st.arg:
